@@ -59,4 +59,38 @@ SPECS = {
                    "add_node_sibling_of_target", "set_data_with_clones"],
         "assumptions": ASSUME_COMMON,
     },
+    "C07": {
+        "driver": H, "level": "exploration",
+        "runs": {"quick": 4000, "thorough": 400000},
+        "rule": "seeded multi-tree histories in which nodes, branches and whole trees are "
+                "copied between and within trees (shallow/deep, all positions) and both sides "
+                "keep mutating; the source's observable state is compared before/after each "
+                "copy, new nodes must be new objects bound lock-step to the model's copy "
+                "(same data object, data_id, kind, order), afterwards both trees are compared "
+                "with their own model after every step. Non-trivial: >= 3 successful mutations "
+                "and a probe fired; distinct by run digest.",
+        "probes": ["add_tree", "add_deep_node", "add_node_sibling_of_target", "copy_tree",
+                   "copy_to", "copy_filtered"],
+        "assumptions": ASSUME_COMMON,
+    },
+    "C08": {
+        "driver": H, "level": "exploration",
+        "runs": {"quick": 4000, "thorough": 400000},
+        "rule": "seeded histories with in-place filter steps (and copy-form filters on the same "
+                "state) under per-node verdict plans drawn from {True, False, None, SkipBranch, "
+                "SkipBranch(and_self=False), SelectBranch, StopTraversal} x {returned, raised}; "
+                "result and predicate call sequence are compared with the documented filter "
+                "semantics. Non-trivial: >= 3 successful mutations and a probe fired.",
+        "probes": ["filter_select", "filter_skip_self", "filter_stop", "copy_filtered"],
+        "assumptions": ASSUME_COMMON,
+    },
+    "C13": {
+        "driver": H, "level": "fault_enumeration",
+        "runs": {"quick": 4000, "thorough": 400000},
+        "rule": "seeded histories with declared-invalid operations and callback faults",
+        "probes": ["add_before_not_child_refused", "move_into_descendant_refused",
+                   "set_data_no_decision_refused", "del_ambiguous_refused",
+                   "callback_fault_fired"],
+        "assumptions": ASSUME_COMMON,
+    },
 }
